@@ -433,3 +433,52 @@ def check_deferred_free(ck, P, rid):
                 continue
             ck.holds(rid, inst, c.where, "every path from the send passes msg_allocator_free_at_gvt(%s) before the variable is reused" % rv.name, cfgname)
     ck.expect(rid, n, 1, "call sites of mpi_remote_anti_msg_send")
+
+
+# --------------------------------------------------------------------------------------------------------------
+# the per-LP list of early (overtaking) remote anti-messages
+# --------------------------------------------------------------------------------------------------------------
+def check_early_list(ck, P, rid):
+    cfg = P.config
+    # (a) matched entry is unlinked before it is released
+    f = P.fn("check_early_anti_messages")
+    a_frees = [c for c in f.calls("msg_allocator_free")]
+    anti = None
+    for v in f.walk():
+        if v.k == "VarDecl" and v.children and X.show(v.children[0]).startswith("*"):
+            anti = v
+    inst = "unlink-before-release@check_early_anti_messages"
+    if anti is None or len(a_frees) != 2:
+        ck.inconclusive(rid, inst, f.where, "early list walk not recognised", cfg)
+    else:
+        fr = [c for c in a_frees if X.show(X.callee_args(c)[0]) == anti.name]
+        unl = [n for n in f.walk() if n.k == "BinaryOperator" and n.op == "=" and X.strip(n.children[0]).k == "UnaryOperator" and X.strip(n.children[0]).op == "*" and X.show(n.children[1]) == "%s->next" % anti.name]
+        if fr and unl and any(f.cfg.dominates(u, fr[0]) for u in unl):
+            ck.holds(rid, inst, unl[0].where, "`%s` dominates the release of the matched early anti-message" % X.show(unl[0]), cfg)
+        else:
+            ck.violated(rid, inst, fr[0].where if fr else f.where, "the matched early anti-message is released while the LP's list still points to it: the next arrival walks freed memory", cfg)
+        # the walk advances through the predecessor's link (so that the unlink writes the right slot)
+        adv = [n for n in f.walk() if n.k == "BinaryOperator" and n.op == "=" and X.show(n.children[1]) == "&%s->next" % anti.name]
+        if adv:
+            ck.holds(rid, "walk@check_early_anti_messages", adv[0].where, "the slot pointer follows the node being examined", cfg)
+        else:
+            ck.violated(rid, "walk@check_early_anti_messages", f.where, "the walk does not keep a pointer to the predecessor's link", cfg)
+    # (b) an early anti-message is linked completely before it becomes the list head
+    h = P.fn("handle_remote_anti_msg")
+    a = h.params[1]["name"]
+    link = [n for n in h.walk() if n.k == "BinaryOperator" and n.op == "=" and X.show(n.children[0]) == "%s->next" % a and "early_antis" in X.show(n.children[1])]
+    pub = [n for n in h.walk() if n.k == "BinaryOperator" and n.op == "=" and X.show(n.children[0]).endswith("early_antis") and X.show(n.children[1]) == a]
+    inst = "link-then-publish@handle_remote_anti_msg"
+    if link and pub and h.cfg.dominates(link[0], pub[0]):
+        ck.holds(rid, inst, pub[0].where, "%s->next = old head; head = %s" % (a, a), cfg)
+    elif pub:
+        ck.violated(rid, inst, pub[0].where, "an early anti-message becomes the list head without its link being set to the old head first: the rest of the list is lost or garbage is followed", cfg)
+    else:
+        ck.violated(rid, inst, h.where, "an anti-message that finds no match is not stored for the event it overtook: that event will never be cancelled", cfg)
+    # (c) the list starts empty
+    i = P.fn("process_lp_init")
+    st = [n for n in i.walk() if n.k == "BinaryOperator" and n.op == "=" and X.show(n.children[0]).endswith("early_antis")]
+    if st and X.is_null(st[0].children[1]):
+        ck.holds(rid, "init@process_lp_init", st[0].where, "early_antis = NULL", cfg)
+    else:
+        ck.violated(rid, "init@process_lp_init", i.where, "the early anti-message list is not initialised to empty", cfg)
